@@ -709,6 +709,38 @@ func (w *World) HoldRead(h *Hold, n int) bool {
 	return true
 }
 
+// HoldDrainRaw consumes a held read to its end WITHOUT evaluating the
+// result (no model access, no Fatalf): it may be called from a hook running
+// on another goroutine. The caller evaluates data and err afterwards.
+func (w *World) HoldDrainRaw(h *Hold) ([]byte, error) {
+	if h.done {
+		return h.got, nil
+	}
+	h.done = true
+	var err error
+	for err == nil {
+		var chunk []byte
+		if h.cr != nil {
+			chunk, err = h.cr.Read()
+		} else {
+			buf := make([]byte, 4096)
+			var k int
+			k, err = h.rd.Read(buf)
+			chunk = buf[:k]
+		}
+		h.got = append(h.got, chunk...)
+	}
+	if h.cr != nil {
+		h.cr.Close()
+	} else {
+		h.rd.Close()
+	}
+	if err == io.EOF {
+		return h.got, nil
+	}
+	return h.got, err
+}
+
 // HoldClose abandons a held read early.
 func (w *World) HoldClose(h *Hold) {
 	if h.done {
